@@ -99,7 +99,8 @@ func execDec(toks []string) string {
 				}
 				return "ok:" + hex.EncodeToString(got)
 			case "root":
-				if len(buf) == 0 { // GetRoot tests for the empty root before classifying
+				if len(buf) == 0 { // the empty root record: classified as "not a reference" without a panic
+					_, _ = iavl.VerifIsReferenceRoot(buf)
 					return "ok:empty"
 				}
 				isRef, n := iavl.VerifIsReferenceRoot(buf)
